@@ -13,8 +13,8 @@ import random
 ID = "C05"
 LEVEL = "exploration"
 TIERS = {
-    "quick": {"runs": 12000, "wall": 80, "chunk": 100, "shrink_s": 40, "run_cap_s": 60},
-    "thorough": {"runs": 800_000, "wall": 840, "chunk": 100, "shrink_s": 120, "run_cap_s": 60},
+    "quick": {"runs": 12000, "wall": 80, "chunk": 100, "shrink_s": 40, "run_cap_s": 120},
+    "thorough": {"runs": 800_000, "wall": 840, "chunk": 100, "shrink_s": 120, "run_cap_s": 120},
 }
 RULE = (
     "one run = one cache store (cache=True with a drawn cachesize | unbounded SimCache | LRU SimCache of "
